@@ -18,7 +18,7 @@ import (
 // ---- bridged clients: C21 (safety) and C23 (progress) ----
 
 type bop struct {
-	// Op: send, recv, cancel, cut, halfcut, drop, pause, reref (P's application releases its reference to the partner
+	// Op: hold / unhold (the relay's sends towards P's current connections block / go on: a stalled down-link), send, resend (a new send repeating the payload of P's previous send), recv, cancel, cut, halfcut, drop, pause, reref (P's application releases its reference to the partner
 	// and takes a new one, while nothing is in flight in either direction)
 	Op string `json:"op"`
 	P  int    `json:"p"`
@@ -30,14 +30,27 @@ type bCase struct {
 	Ops []bop `json:"ops"`
 	// AutoRecv lets both applications consume continuously (otherwise only on recv ops).
 	AutoRecv bool `json:"auto_recv"`
+	// ViaSession: the applications send and receive through the signaling.SignalPeerSession adaptor
+	// (NewSessionWithRef) instead of the peer reference itself
+	ViaSession bool `json:"via_session,omitempty"`
 }
 
 func genBridge(t *rapid.T, withDrop bool) bCase {
-	ops := []string{"send", "send", "send", "recv", "recv", "cancel", "cut", "halfcut", "pause", "reref"}
+	ops := []string{"send", "send", "send", "resend", "recv", "recv", "cancel", "cut", "halfcut", "pause", "reref", "hold", "unhold"}
 	if withDrop {
 		ops = append(ops, "drop")
 	}
-	c := bCase{AutoRecv: rapid.Bool().Draw(t, "autorecv")}
+	c := bCase{AutoRecv: rapid.Bool().Draw(t, "autorecv"), ViaSession: rapid.Bool().Draw(t, "viasession")}
+	if rapid.IntRange(0, 3).Draw(t, "repeat") == 0 {
+		// the same payload is sent twice in a row (two distinct messages with equal content)
+		p := rapid.IntRange(0, 1).Draw(t, "pp")
+		c.Ops = append(c.Ops, bop{Op: "send", P: p}, bop{Op: "recv", P: 1 - p}, bop{Op: "resend", P: p}, bop{Op: "recv", P: 1 - p}, bop{Op: "send", P: p}, bop{Op: "recv", P: 1 - p})
+	}
+	if rapid.IntRange(0, 3).Draw(t, "slowlink") == 0 {
+		// one side's down-link stalls; meanwhile the other side reconnects and sends at once; then the link recovers
+		p := rapid.IntRange(0, 1).Draw(t, "sp")
+		c.Ops = append(c.Ops, bop{Op: "hold", P: p}, bop{Op: rapid.SampledFrom([]string{"cut", "halfcut", "reref"}).Draw(t, "sre"), P: 1 - p}, bop{Op: "send", P: 1 - p}, bop{Op: "unhold", P: p}, bop{Op: "recv", P: p})
+	}
 	if rapid.IntRange(0, 3).Draw(t, "renew") == 0 {
 		// a sender whose message got through renews its reference (its message numbering starts over) and sends again
 		p := rapid.IntRange(0, 1).Draw(t, "rp")
@@ -103,6 +116,10 @@ type brig struct {
 	// recvCtx / recvCancel: the context of p's current Recv calls (cancelled when p renews its reference)
 	recvCtx    [2]context.Context
 	recvCancel [2]context.CancelFunc
+	// viaSession: the applications use the Session adaptor
+	viaSession bool
+	sess       [2]*signaling_rpc_client.Session
+	lastPay    [2]string
 }
 
 // reref makes p's application release its reference to the partner and take a new one.
@@ -116,6 +133,7 @@ func (g *brig) reref(p int) {
 	rctx, rcancel := context.WithCancel(g.ctx)
 	g.mu.Lock()
 	g.ref[p], g.recvCtx[p], g.recvCancel[p] = nref, rctx, rcancel
+	g.sess[p] = signaling_rpc_client.NewSessionWithRef(nref)
 	g.mu.Unlock()
 }
 
@@ -125,9 +143,15 @@ func (g *brig) curRef(p int) (*signaling_rpc_client.ClientPeerRef, context.Conte
 	return g.ref[p], g.recvCtx[p]
 }
 
-func newBrig(auto bool) (*brig, error) {
+func (g *brig) curSess(p int) *signaling_rpc_client.Session {
+	g.mu.Lock()
+	defer g.mu.Unlock()
+	return g.sess[p]
+}
+
+func newBrig(auto bool, via ...bool) (*brig, error) {
 	ctx, cancel := context.WithCancel(context.Background())
-	g := &brig{b: newBridge(), ctx: ctx, cancel: cancel, auto: auto}
+	g := &brig{b: newBridge(), ctx: ctx, cancel: cancel, auto: auto, viaSession: len(via) > 0 && via[0]}
 	for p := 0; p < 2; p++ {
 		cl, err := newClient(p, g.b.relayFor(p))
 		if err != nil {
@@ -137,6 +161,7 @@ func newBrig(auto bool) (*brig, error) {
 		cl.SetContext(ctx)
 		g.cl[p] = cl
 		g.ref[p] = cl.AddPeerRef(gen.PeerID(1 - p).String())
+		g.sess[p] = signaling_rpc_client.NewSessionWithRef(g.ref[p])
 		g.recvCtx[p], g.recvCancel[p] = context.WithCancel(ctx)
 		g.recvReq[p] = make(chan struct{}, 64)
 		go g.appLoop(p)
@@ -156,7 +181,17 @@ func (g *brig) appLoop(p int) {
 		}
 		callAt := tick()
 		ref, rctx := g.curRef(p)
-		m, err := ref.Recv(rctx)
+		var m *signaling.SessionMsg
+		var payload string
+		var err error
+		if g.viaSession {
+			var data []byte
+			data, err = g.curSess(p).Recv(rctx)
+			payload = string(data)
+		} else {
+			m, err = ref.Recv(rctx)
+			payload = string(m.GetSignedMsg().GetData())
+		}
 		if err != nil {
 			if g.ctx.Err() != nil {
 				return
@@ -165,7 +200,7 @@ func (g *brig) appLoop(p int) {
 			continue
 		}
 		g.mu.Lock()
-		g.recvs[p] = append(g.recvs[p], recvRec{callAt: callAt, at: tick(), payload: string(m.GetSignedMsg().GetData()), msg: m})
+		g.recvs[p] = append(g.recvs[p], recvRec{callAt: callAt, at: tick(), payload: payload, msg: m})
 		g.mu.Unlock()
 	}
 }
@@ -189,17 +224,26 @@ func (g *brig) setAuto() {
 	}
 }
 
-func (g *brig) send(p int) *sendRec {
+func (g *brig) send(p int, repeat ...bool) *sendRec {
 	g.mu.Lock()
 	g.nsend++
 	sr := &sendRec{from: p, payload: fmt.Sprintf("msg-%d-from-%d", g.nsend, p), startAt: tick()}
+	if len(repeat) > 0 && repeat[0] && g.lastPay[p] != "" {
+		sr.payload = g.lastPay[p]
+	}
+	g.lastPay[p] = sr.payload
 	g.sends = append(g.sends, sr)
 	g.mu.Unlock()
 	sctx, cancel := context.WithCancel(g.ctx)
 	sr.cancel = cancel
 	go func() {
-		ref, _ := g.curRef(p)
-		_, err := ref.Send(sctx, []byte(sr.payload))
+		var err error
+		if g.viaSession {
+			err = g.curSess(p).Send(sctx, []byte(sr.payload))
+		} else {
+			ref, _ := g.curRef(p)
+			_, err = ref.Send(sctx, []byte(sr.payload))
+		}
 		sr.mu.Lock()
 		sr.done, sr.err, sr.doneAt = true, err, tick()
 		sr.mu.Unlock()
@@ -253,7 +297,7 @@ func (g *brig) run(ops []bop, classes map[string]bool) []string {
 	inflight := func() bool { return pendingSend(0) != nil || pendingSend(1) != nil }
 	for _, op := range ops {
 		switch op.Op {
-		case "send":
+		case "send", "resend":
 			// at most 6 messages per direction
 			g.mu.Lock()
 			n := 0
@@ -266,7 +310,10 @@ func (g *brig) run(ops []bop, classes map[string]bool) []string {
 			if n >= 6 {
 				continue
 			}
-			g.send(op.P)
+			g.send(op.P, op.Op == "resend")
+			if op.Op == "resend" {
+				classes["payload-repeated"] = true
+			}
 		case "recv":
 			select {
 			case g.recvReq[op.P] <- struct{}{}:
@@ -296,6 +343,15 @@ func (g *brig) run(ops []bop, classes map[string]bool) []string {
 			}
 			g.reref(op.P)
 			classes["reference-renewed"] = true
+		case "hold":
+			if !g.b.hold(op.P) {
+				continue
+			}
+			classes["slow-down-link"] = true
+		case "unhold":
+			if !g.b.unhold(op.P) {
+				continue
+			}
 		case "drop":
 			g.b.dropNext(op.P, op.Kind, 1)
 			classes["dropping-relay"] = true
@@ -321,16 +377,25 @@ func (g *brig) safety(hist []string) *vstat.Violation {
 		// The harness sees Send's return and Recv's return only through upper bounds (ticks taken
 		// afterwards), so the sound form of "handed over before the send succeeded" is: the Recv call that
 		// returned the message had at least been started before Send was seen to return, and it did return it.
+		// equal payloads may have been sent several times: the k-th successful send of a payload needs k receptions
+		need := 0
+		for _, s2 := range sends {
+			d2, e2, at2 := s2.finished()
+			if d2 && e2 == nil && s2.from == s.from && s2.payload == s.payload && at2 <= at {
+				need++
+			}
+		}
 		match := func() (found, inTime bool) {
+			nf, nt := 0, 0
 			for _, r := range g.received(1 - s.from) {
 				if r.payload == s.payload {
-					found = true
+					nf++
 					if r.callAt < at {
-						inTime = true
+						nt++
 					}
 				}
 			}
-			return
+			return nf >= need, nt >= need
 		}
 		var found, inTime bool
 		waitFor(2*time.Second, func() bool { found, inTime = match(); return found })
@@ -352,7 +417,7 @@ func (g *brig) safety(hist []string) *vstat.Violation {
 			if !ok {
 				return vstat.Viol("received-unsent-message", "after %s: peer %d's application was handed %q which the partner never sent", h, p, r.payload)
 			}
-			if !authentic(r.msg, 1-p) {
+			if r.msg != nil && !authentic(r.msg, 1-p) {
 				return vstat.Viol("received-unauthentic-message", "after %s: peer %d's application was handed a message not signed by its partner", h, p)
 			}
 		}
@@ -363,23 +428,26 @@ func (g *brig) safety(hist []string) *vstat.Violation {
 func genC21(t *rapid.T) bCase { return genBridge(t, true) }
 
 func checkC21(c bCase) (o vstat.Outcome) {
-	g, err := newBrig(c.AutoRecv)
+	g, err := newBrig(c.AutoRecv, c.ViaSession)
 	if err != nil {
 		o.Discard = true
 		return
 	}
 	defer g.close()
 	classes := map[string]bool{}
+	if c.ViaSession {
+		classes["through-the-session-adaptor"] = true
+	}
 	hist := g.run(c.Ops, classes)
 	o.Classes = append(o.Classes, classList(classes)...)
-	o.NonTrivial = classes["cancel-in-flight"] || classes["cut-while-send-in-flight"] || classes["dropping-relay"]
+	o.NonTrivial = classes["cancel-in-flight"] || classes["cut-while-send-in-flight"] || classes["dropping-relay"] || classes["payload-repeated"] || classes["reference-renewed"]
 	o.V = g.safety(hist)
 	return
 }
 
 var specC21 = vstat.Spec[bCase]{
 	Property: "C21",
-	Rule: "two real signaling Clients bridged in-process to the real relay Server by a harness SRPCSignalingClient whose pipes can be cut (client reconnects) and can lose the next relay->client message of a kind; histories of 3-14 operations send (asynchronous application Send, at most 4 per direction) / recv (application consumes) / cancel (caller cancels an in-flight Send) / cut / drop; applications consume continuously or only on recv operations; " +
+	Rule: "two real signaling Clients bridged in-process to the real relay Server by a harness SRPCSignalingClient whose pipes can be cut (client reconnects) and can lose the next relay->client message of a kind; the applications use the peer reference or the Session adaptor built on it; histories of 3-14 operations send (asynchronous application Send, at most 6 per direction; a send may repeat the payload of the previous one) / reference renewal / recv (application consumes) / cancel (caller cancels an in-flight Send) / cut / drop; applications consume continuously or only on recv operations; " +
 		"oracle over a global event order: a Send that reported success was preceded by the partner's application being handed that exact message; every message handed to an application was sent by the partner and is authentic; non-trivial = a cancel or cut while a send is in flight, or a dropping relay",
 	Assumptions: []string{"time-based settle after every operation; safety clauses can only be missed, not invented, by late events"},
 	Gen:         genC21,
@@ -399,7 +467,7 @@ func genC23(t *rapid.T) bCase {
 }
 
 func checkC23(c bCase) (o vstat.Outcome) {
-	g, err := newBrig(c.AutoRecv)
+	g, err := newBrig(c.AutoRecv, c.ViaSession)
 	if err != nil {
 		o.Discard = true
 		return
